@@ -1,6 +1,7 @@
 import Lean.Data.Json
 import SwhVerif.Model.All
 import SwhVerif.Exec.Sha1
+import SwhVerif.Exec.SerdeIds
 /-!
   Line-protocol driver: one JSON object per input line, one JSON object per output line.
   Runs the *model's* executable definitions; the Python harness runs the implementation on
@@ -720,6 +721,58 @@ def opValues (j : Json) : Except String Json := do
       pure <| Json.mkObj [("observed", jPairs (Values.observe s2 obj))]
   | _ => throw s!"bad values op {f}"
 
+/-! #### C12 dictionary serialisation -/
+
+namespace SerdeDrv
+open Swh.Serde
+
+partial def parseVal (j : Json) : Except String Val :=
+  match j with
+  | Json.null => pure .none
+  | Json.bool b => pure (.bool b)
+  | Json.obj _ =>
+    match j.getObjVal? "i", j.getObjVal? "s", j.getObjVal? "x", j.getObjVal? "dt", j.getObjVal? "l", j.getObjVal? "d" with
+    | .ok v, _, _, _, _, _ => do let i ← v.getInt?; pure (.int i)
+    | _, .ok v, _, _, _, _ => do
+        let a ← v.getArr?
+        let l ← a.toList.mapM (fun x => x.getNat?)
+        pure (.str l)
+    | _, _, .ok v, _, _, _ => do let h ← v.getStr?; let b ← unhexStr h; pure (.bytes b)
+    | _, _, _, .ok v, _, _ => do
+        let a ← v.getArr?
+        pure (.dt (← a[0]!.getInt?) (← a[1]!.getInt?))
+    | _, _, _, _, .ok v, _ => do
+        let a ← v.getArr?
+        let l ← a.toList.mapM parseVal
+        pure (.list l)
+    | _, _, _, _, _, .ok v => do
+        let a ← v.getArr?
+        let kv ← a.toList.mapM (fun p => do
+          let q ← p.getArr?
+          pure (← parseVal q[0]!, ← parseVal q[1]!))
+        pure (.dict kv)
+    | _, _, _, _, _, _ => throw "bad Val"
+  | _ => throw "bad Val"
+
+partial def jVal : Val → Json
+  | .none => Json.null
+  | .bool b => Json.bool b
+  | .int i => Json.mkObj [("i", Json.num (JsonNumber.fromInt i))]
+  | .str s => Json.mkObj [("s", jNats s)]
+  | .bytes b => Json.mkObj [("x", jB b)]
+  | .dt u o => Json.mkObj [("dt", Json.arr #[Json.num (JsonNumber.fromInt u), Json.num (JsonNumber.fromInt o)])]
+  | .list l => Json.mkObj [("l", Json.arr (l.map jVal).toArray)]
+  | .dict kv => Json.mkObj [("d", Json.arr (kv.map (fun p => Json.arr #[jVal p.1, jVal p.2])).toArray)]
+
+def opRoundTrip (j : Json) : Except String Json := do
+  let cls ← getS j "cls"
+  let d ← parseVal (← j.getObjVal? "dict")
+  match roundTrip cls d with
+  | .ok (a, b) => pure <| Json.mkObj [("first", jVal a), ("second", jVal b)]
+  | .error e => pure <| Json.mkObj [("err", jErr e)]
+
+end SerdeDrv
+
 def opSha1 (j : Json) : Except String Json := do
   let b ← getB j "data"
   pure <| Json.mkObj [("sha1", jB (Sha1.sha1 b))]
@@ -761,6 +814,7 @@ def dispatch (op : String) (j : Json) : Except String Json :=
   | "fs_read" => FsDrv.opRead j
   | "fs_normalize" => FsDrv.opNormalize j
   | "values" => opValues j
+  | "serde_roundtrip" => SerdeDrv.opRoundTrip j
   | _ => throw s!"unknown op {op}"
 
 def handleLine (line : String) : String :=
